@@ -72,6 +72,26 @@ def gl_rule(n):
     return _GL[n]
 
 
+_ES = {}
+
+
+def esutil_rule(n):
+    """the rule esutil documents and exposes: esutil.integrate.gauleg(-1, 1, n) (decided by property C17)"""
+    if n not in _ES:
+        try:
+            from esutil.integrate import gauleg
+            x, w = gauleg(-1.0, 1.0, n)
+            x, w = [float(v) for v in x], [float(v) for v in w]
+            if len(x) != n or len(w) != n or not all(math.isfinite(v) for v in x + w):
+                raise ValueError("malformed rule")
+            _ES[n] = (x, w)
+        except Exception as e:  # noqa
+            _ES[n] = Undefined("esutil.integrate.gauleg(-1, 1, %d) unusable: %s" % (n, e))
+    if isinstance(_ES[n], Exception):
+        raise _ES[n]
+    return _ES[n]
+
+
 # ---- high precision elementary functions ----------------------------------------------
 def _dec(x):
     return _DCTX.divide(decimal.Decimal(x.numerator), decimal.Decimal(x.denominator))
@@ -112,10 +132,12 @@ def _log10(x):
 class Evaluator:
     """evaluates Cosmo.tla expression trees on one object and one redshift pair"""
 
-    def __init__(self, obj, a, b, der):
+    def __init__(self, obj, a, b, der, pars=None):
         self.obj = obj
         self.vals = {"a": float(a), "b": float(b), "DH": float(obj.DH()), "ok": float(obj.omega_k())}
         self.der = der
+        self.pars = pars or {}         # the reported parameters as exact lattice rationals [n, d]
+        self.env = {}                  # bound quadrature nodes
         self.memo = {}
         self.ncalls = 0
 
@@ -155,12 +177,29 @@ class Evaluator:
             return F(self.call(t[1], self.arg(t[2])))
         if op == "q2":
             return F(self.call(t[1], self.arg(t[2]), self.arg(t[3])))
+        if op == "p":
+            nd = self.pars.get(t[1])
+            if nd is None or nd[1] == 0:
+                raise Undefined("reported parameter %s is not on the lattice" % t[1])
+            return frac(nd)
+        if op == "x":
+            return self.env[t[1]]
         if op == "gl":
-            n, f = t[1], t[2]
-            lo, hi = self.arg(t[3]), self.arg(t[4])
-            xs, ws = gl_rule(n)
+            n, rule, var, body = t[1], t[2], t[3], t[4]
+            lo, hi = self.arg(t[5]), self.arg(t[6])
+            xs, ws = esutil_rule(n) if rule == "esutil" else gl_rule(n)
             f1, f2 = (hi - lo) / 2.0, (hi + lo) / 2.0            # the documented mapping, in binary64
-            return sum(F(w) * F(f1) * F(self.call(f, x * f1 + f2)) for x, w in zip(xs, ws))
+            total, saved = F(0), self.env.get(var)
+            try:
+                for x, w in zip(xs, ws):
+                    self.env[var] = F(x * f1 + f2)
+                    total += F(w) * F(f1) * self.ev(body)
+            finally:
+                if saved is None:
+                    self.env.pop(var, None)
+                else:
+                    self.env[var] = saved
+            return total
         if op in ("add", "sub", "mul", "div", "max"):
             x, y = self.ev(t[1]), self.ev(t[2])
             if op == "add":
